@@ -8,7 +8,7 @@ ATOMS = ["", "*", "+", "-", "0", "1", "10", "-1", "1$", "$", "A", "a", "ACGT", "
          "xx:f:.", "xx:f:e", "xx:i:", "x:i:1", "xxx:i:1", "xx:q:1", "xx:A:ab", "VN:Z:1.0", "VN:Z:2.0", "VN:Z:3.0",
          "VN:i:1", "TS:i:x", "TS:Z:1", "LN:i:-1", "LN:Z:x", "ID:Z:A", "ID:i:1", " ", "\x7f", "\x00", "é", "５",
          " ", "é", "1e5", "inf", "nan", "0x10", "1_0", "١", "٣M", "²", "1" * 40, "1" * 5000, "A" * 300, "[" * 60 + "]" * 60,
-         "xx:J:" + "[" * 200 + "]" * 200, "xx:J:" + '{"a":' * 50 + "1" + "}" * 50, "\r", "a\rb", "a\x0bb"]
+         "xx:J:" + "[" * 200 + "]" * 200, "xx:J:" + "[" * 6000 + "]" * 6000, "xx:J:" + '{"a":' * 3000 + "1" + "}" * 3000, "xx:J:" + '{"a":' * 50 + "1" + "}" * 50, "\r", "a\rb", "a\x0bb"]
 PRINT = "".join(chr(c) for c in range(0x20, 0x7f))
 
 
